@@ -43,6 +43,7 @@ const (
 	aLen
 	aCap
 	aNonNil // 1 if the pointer-like value is not nil, else 0
+	aQuot   // integer witness: for v = x % c the quotient with x = c*q + v; for a stepping loop phi the number of steps taken
 )
 
 type atom struct {
@@ -278,6 +279,8 @@ func (p *bprover) atomStr(a atom) string {
 		return "cap(" + s + ")"
 	case aNonNil:
 		return "nonnil(" + s + ")"
+	case aQuot:
+		return "steps(" + s + ")"
 	}
 	return s
 }
@@ -1232,6 +1235,9 @@ func (p *bprover) atomFacts1(a atom) []bfact {
 		res = append(res, p.nilAtomFacts(a)...)
 		return res
 	}
+	if a.k == aQuot {
+		return res // a witness: only its sign is known
+	}
 	if mv, ok := a.v.(*memVal); ok && a.k == aVal && strings.HasPrefix(mv.key, "ML@") && len(mv.siteIns) >= 1 && len(mv.sites) == len(mv.siteIns) {
 		// the length of a coverage table right after  cov.Prune(n)  is at most n
 		// (Prune must be the latest of the possible writes that define this value)
@@ -1272,8 +1278,31 @@ func (p *bprover) atomFacts1(a atom) []bfact {
 		for _, f := range p.guardedInduction(a, ph) {
 			res = append(res, f)
 		}
+		// congruence: a counter that starts at init and is stepped by multiples
+		// of g on every back edge is init + g*k for an integer k >= 0
+		if inits, steps, ok := p.phiSteps(a, ph); ok && len(inits) == 1 && len(steps) > 0 {
+			var g int64
+			pos := true
+			for _, st := range steps {
+				if st <= 0 {
+					pos = false
+				}
+				g = gcd64(g, st)
+			}
+			if pos && g >= 2 {
+				k := blatom(atom{aQuot, ph})
+				if gk, ok1 := k.scale(g); ok1 {
+					if rhs, ok2 := inits[0].add(gk); ok2 {
+						e1, o1 := me.sub(rhs)
+						add(e1, o1, "stepping counter = init + step*k")
+						e2, o2 := rhs.sub(me)
+						add(e2, o2, "stepping counter = init + step*k")
+					}
+				}
+			}
+		}
 	}
-	if a.k == aLen {
+	if a.k == aLen || a.k == aQuot {
 		return res
 	}
 	switch x := a.v.(type) {
@@ -1399,6 +1428,18 @@ func (p *bprover) atomFacts1(a atom) []bfact {
 					e2, ok2 := p.linOf(x.X).sub(me)
 					add(e2, ok2, "rem<=dividend")
 					add(me, true, "rem>=0")
+					// x = c*q + r for an integer q >= 0 (constant divisor)
+					if c, isC := bconstInt(x.Y); isC && c >= 2 {
+						q := blatom(atom{aQuot, x})
+						if cq, okq := q.scale(c); okq {
+							if rhs, okr := cq.add(me); okr {
+								e3, o3 := p.linOf(x.X).sub(rhs)
+								add(e3, o3, "dividend = divisor*q + remainder")
+								e4, o4 := rhs.sub(p.linOf(x.X))
+								add(e4, o4, "dividend = divisor*q + remainder")
+							}
+						}
+					}
 				}
 			}
 		}
@@ -2266,6 +2307,92 @@ func (p *bprover) infeasible(cons []blin) bool {
 	if contra {
 		return true
 	}
+	// Equalities first (Gaussian step): where e >= 0 and -e >= 0 are both
+	// present and some atom other than a witness has coefficient +-1 in e,
+	// substitute it out of all rows.  This is exact, and it is what lets the
+	// gcd normalisation see congruences: with len = 2q and i = 14 + 2k the
+	// row len - i - 1 >= 0 becomes 2q - 2k - 15 >= 0, i.e. q - k - 8 >= 0.
+	hasWitness := false
+	for _, r := range rows {
+		for a := range r.t {
+			if a.k == aQuot {
+				hasWitness = true
+			}
+		}
+	}
+	for iter := 0; hasWitness && iter < 12; iter++ {
+		idx := map[string]int{}
+		for i, r := range rows {
+			idx[key(r)+fmt.Sprintf("|%d", r.k)] = i
+		}
+		found := false
+		for i, r := range rows {
+			neg, ok := r.scale(-1)
+			if !ok {
+				continue
+			}
+			j, ok := idx[key(neg)+fmt.Sprintf("|%d", neg.k)]
+			if !ok || j == i {
+				continue
+			}
+			// r == 0; choose the atom to eliminate
+			var pick atom
+			have := false
+			var atoms []atom
+			for a := range r.t {
+				atoms = append(atoms, a)
+			}
+			sort.Slice(atoms, func(x, y int) bool { return p.atomOrder(atoms[x]) < p.atomOrder(atoms[y]) })
+			for _, a := range atoms {
+				c := r.t[a]
+				if (c == 1 || c == -1) && a.k != aQuot {
+					pick, have = a, true
+					break
+				}
+			}
+			if !have {
+				continue
+			}
+			cp := r.t[pick]
+			var out []row
+			okAll := true
+			for k2, q := range rows {
+				if k2 == i || k2 == j {
+					continue
+				}
+				cq, has := q.t[pick]
+				if !has || cq == 0 {
+					out = append(out, q)
+					continue
+				}
+				// q - (cq/cp)*r  eliminates pick (cp = +-1)
+				m, ok1 := r.scale(-cq * cp)
+				if !ok1 {
+					okAll = false
+					break
+				}
+				nq, ok2 := q.add(m)
+				if !ok2 {
+					okAll = false
+					break
+				}
+				delete(nq.t, pick)
+				out = append(out, nq)
+			}
+			if !okAll {
+				continue
+			}
+			rows, contra = dedupe(out)
+			if contra {
+				return true
+			}
+			found = true
+			break
+		}
+		if !found {
+			break
+		}
+	}
 	for iter := 0; iter < 40; iter++ {
 		if len(rows) == 0 {
 			return false
@@ -2434,41 +2561,57 @@ func (p *bprover) partnerFacts(a atom, ph *ssa.Phi) []bfact {
 		if !ok || len(qi) != 1 || len(qs) != len(steps) {
 			continue
 		}
-		same, opposite, nonzero := true, true, false
+		// proportional steps: if alpha*c_i = beta*q_i on every back edge then
+		// alpha*me - beta*q keeps its initial value (same steps: alpha = beta = 1;
+		// a byte index stepping by 2 next to a word count stepping by 1: 1 and 2)
+		var alpha, beta int64
 		for i, c := range steps {
 			qc, has := qs[i]
 			if !has {
-				same, opposite = false, false
+				alpha, beta = 0, 0
 				break
 			}
-			if qc != c {
-				same = false
-			}
-			if qc != -c {
-				opposite = false
-			}
-			if c != 0 {
-				nonzero = true
+			if alpha == 0 && beta == 0 && (c != 0 || qc != 0) {
+				ac, aq := c, qc
+				if ac < 0 {
+					ac = -ac
+				}
+				if aq < 0 {
+					aq = -aq
+				}
+				g := gcd64(ac, aq)
+				if g == 0 {
+					continue
+				}
+				alpha, beta = qc/g, c/g
 			}
 		}
-		if !nonzero || (!same && !opposite) {
+		if alpha == 0 || beta == 0 || alpha > 64 || alpha < -64 || beta > 64 || beta < -64 {
 			continue
 		}
-		// same steps: me - q is invariant; opposite steps: me + q is invariant
-		var d, di blin
-		var ok1, ok2 bool
-		if same {
-			d, ok1 = blatom(a).sub(blatom(qa))
-			di, ok2 = inits[0].sub(qi[0])
-		} else {
-			d, ok1 = blatom(a).add(blatom(qa))
-			di, ok2 = inits[0].add(qi[0])
+		prop := true
+		for i, c := range steps {
+			if alpha*c != beta*qs[i] {
+				prop = false
+			}
 		}
-		if !ok1 || !ok2 {
+		if !prop {
 			continue
 		}
-		e, ok3 := d.sub(di)
-		if !ok3 {
+		am, ok1 := blatom(a).scale(alpha)
+		bq, ok2 := blatom(qa).scale(beta)
+		ai, ok3 := inits[0].scale(alpha)
+		bi, ok4 := qi[0].scale(beta)
+		if !ok1 || !ok2 || !ok3 || !ok4 {
+			continue
+		}
+		d, ok5 := am.sub(bq)
+		di, ok6 := ai.sub(bi)
+		if !ok5 || !ok6 {
+			continue
+		}
+		e, ok7 := d.sub(di)
+		if !ok7 {
 			continue
 		}
 		ne, _ := e.scale(-1)
